@@ -97,8 +97,11 @@ class HarnessFailure(Exception):
 
 
 class Pool:
-    def __init__(self, n, seed, extra_env=None, hashseed_salt="w"):
-        self.workers = [Worker(i, derive(seed, hashseed_salt, i) % 4294967295, extra_env) for i in range(n)]
+    def __init__(self, n, seed, extra_env=None, hashseed_salt="w", hashseed=None):
+        self.workers = [
+            Worker(i, hashseed if hashseed is not None else derive(seed, hashseed_salt, i) % 4294967295, extra_env)
+            for i in range(n)
+        ]
         self.sel = selectors.DefaultSelector()
         for w in self.workers:
             self.sel.register(w.p.stdout, selectors.EVENT_READ, w)
@@ -261,11 +264,16 @@ def run_check(prop, tier, seed, runs=None, nworkers=None, wall=None, extra_env=N
                     timeout=900,
                 )
                 shr.sort(key=lambda r: r["_job"]["case"].get("seed", 0))
-                fresh = Pool(1, seed, extra_env, hashseed_salt="replay")
+                fresh_pools = {}
                 try:
                     for s in shr:
                         orig_case = s["_job"]["case"]
                         case = s["case"] if s.get("status") == "violation" else orig_case
+                        # a replay runs in ONE fresh interpreter started with the recorded PYTHONHASHSEED
+                        hs = orig_case.get("hashseed")
+                        if hs not in fresh_pools:
+                            fresh_pools[hs] = Pool(1, seed, extra_env, hashseed_salt="replay", hashseed=hs)
+                        fresh = fresh_pools[hs]
                         rep = fresh.map([{"cmd": "replay", "prop": prop, "case": case}], timeout=600)[0]
                         if rep.get("status") != "violation" or (s.get("status") == "violation" and rep.get("cls") != s.get("cls")):
                             rep2 = fresh.map([{"cmd": "replay", "prop": prop, "case": orig_case}], timeout=600)[0]
@@ -278,7 +286,8 @@ def run_check(prop, tier, seed, runs=None, nworkers=None, wall=None, extra_env=N
                             case, rep = orig_case, rep2
                         reported.append((rep, _write_replay(prop, case, rep)))
                 finally:
-                    fresh.close()
+                    for fp_ in fresh_pools.values():
+                        fp_.close()
             for r in rest:
                 reported.append((r, _write_replay(prop, r["case"], r)))
             seen_cls = set()
@@ -396,7 +405,7 @@ def _sample(r):
 def replay_file(prop, path):
     d = load_json(path)
     case = d["case"]
-    pool = Pool(1, case.get("seed", 0), hashseed_salt="replay")
+    pool = Pool(1, case.get("seed", 0), hashseed_salt="replay", hashseed=case.get("hashseed"))
     try:
         env_hs = case.get("hashseed")
         res = pool.map([{"cmd": "replay", "prop": prop, "case": case}], timeout=900)[0]
